@@ -119,3 +119,42 @@ Theorem C06_fd_job_thread_never_sleeps_past_a_deadline : forall m now,
   end.
 Proof. exact NoOversleep22.dll_job22_wakeup_covers_every_deadline. Qed.
 Print Assumptions C06_fd_job_thread_never_sleeps_past_a_deadline.
+
+From J1939P Require Net21 Net21Timeout.
+(* T06.10 — a vanished peer, end to end, in the closed loop of two model nodes (Net21.v): the responder never answers.  The
+   network's clock advances by exactly T3 = 1.25 s; A's job thread then sends the Connection Abort (timeout) and releases the
+   session; nothing was delivered anywhere, nothing is left, B is untouched *)
+Theorem C06_silent_responder_abandoned_after_T3 : forall prio sa dest dp pf p t0 A0 B0,
+  0 <= prio < 8 -> 0 <= sa < 255 -> 0 <= dest < 255 -> 0 <= pf < 240 -> 0 <= dp < 2 -> 8 < len p <= 1785 -> 0 < t0 ->
+  n_snd A0 = [] /\ n_rcv A0 = [] /\ n_timers A0 = [] ->
+  n_snd B0 = [] /\ n_rcv B0 = [] /\ n_timers B0 = [] ->
+  accepts B0 dest = false ->
+  let s := Net21.steps 4 (Net21.net_send (Net21.net0 A0 B0 t0) dp pf dest prio sa p) in
+  Net21.qa s = [] /\ Net21.qb s = [] /\ n_snd (Net21.na s) = [] /\ n_rcv (Net21.na s) = [] /\ Net21.nb s = B0 /\
+  Net21.evb s = [] /\ Net21.eva s = [] /\
+  Net21.wab s = [tp21_rts sa dest prio (dp * 65536 + pf * 256) (len p) (Z.of_nat (npk (length p)))
+                          (Z.min (n_maxp A0) (Z.of_nat (npk (length p))));
+                 tp21_abort sa dest tp21_reason_TIMEOUT (dp * 65536 + pf * 256)] /\
+  Net21.wba s = [] /\ Net21.clk s = t0 + tp21_T3.
+Proof. exact Net21Timeout.silent_responder. Qed.
+Print Assumptions C06_silent_responder_abandoned_after_T3.
+
+(* T06.11 — the originator does not hear the responder: B opens a receive session and answers with a CTS that A never sees;
+   after exactly 1.25 s both job threads give up in the same pass (A: T3, B: T2), the two aborts cross, nothing was
+   delivered and nothing is left on either side *)
+Theorem C06_unheard_responder_both_sides_give_up : forall prio sa dest dp pf p t0 A0 B0,
+  0 <= prio < 8 -> 0 <= sa < 255 -> 0 <= dest < 255 -> 0 <= pf < 240 -> 0 <= dp < 2 -> 8 < len p <= 1785 -> 0 < t0 ->
+  n_snd A0 = [] /\ n_rcv A0 = [] /\ n_timers A0 = [] ->
+  n_snd B0 = [] /\ n_rcv B0 = [] /\ n_timers B0 = [] ->
+  accepts A0 sa = false -> accepts B0 dest = true -> 1 <= n_maxp A0 -> 1 <= n_maxp B0 ->
+  let s := Net21.steps 6 (Net21.net_send (Net21.net0 A0 B0 t0) dp pf dest prio sa p) in
+  let pv := dp * 65536 + pf * 256 in
+  let num := Z.of_nat (npk (length p)) in
+  Net21.qa s = [] /\ Net21.qb s = [] /\ n_snd (Net21.na s) = [] /\ n_rcv (Net21.na s) = [] /\
+  n_snd (Net21.nb s) = [] /\ n_rcv (Net21.nb s) = [] /\ Net21.evb s = [] /\ Net21.eva s = [] /\
+  Net21.wab s = [tp21_rts sa dest prio pv (len p) num (Z.min (n_maxp A0) num); tp21_abort sa dest tp21_reason_TIMEOUT pv] /\
+  Net21.wba s = [tp21_cts dest sa (Z.min (n_maxp B0) (Z.min (Z.min (n_maxp A0) num) num)) 1 pv;
+                 tp21_abort dest sa tp21_reason_TIMEOUT pv] /\
+  Net21.clk s = t0 + 1250000.
+Proof. exact Net21Timeout.silent_originator. Qed.
+Print Assumptions C06_unheard_responder_both_sides_give_up.
